@@ -779,7 +779,12 @@ func builtinSprintfFunc(c Call) (ret Object, err error) {
 }
 
 func builtinGlobalsFunc(c Call) (Object, error) {
-	return c.VM().GetGlobals(), nil
+	vm := c.VM()
+	if vm == nil {
+		// called without a VM, e.g. through BuiltinFunction.Value from Go
+		return Undefined, nil
+	}
+	return vm.GetGlobals(), nil
 }
 
 func builtinIsErrorFunc(c Call) (ret Object, err error) {
